@@ -52,6 +52,16 @@ def feasible(pc, timeout_ms=250, full=False):
     return r != z3.unsat
 
 
+def quick_valid(pc, goal, timeout_ms=100):
+    """True only if the quantifier-free part of pc certainly implies goal (cheap, used to keep terms simple)."""
+    s = _mk_solver(timeout_ms)
+    for c in pc:
+        if not has_quant(c):
+            s.add(c)
+    s.add(z3.Not(goal))
+    return s.check() == z3.unsat
+
+
 def _external(smt2, timeout_s):
     """Try cvc5 and the distro z3 on the SMT-LIB text. Returns (verdict, backend)."""
     with tempfile.NamedTemporaryFile("w", suffix=".smt2", delete=False) as f:
@@ -92,62 +102,68 @@ def _retry(pc, goal, timeout_ms):
     return False
 
 
+def _check(pc, goal, timeout_ms, qf_only=False, ematch=False, seed=None):
+    s = _mk_solver(timeout_ms)
+    if ematch:
+        s.set("smt.mbqi", False)
+    if seed is not None:
+        s.set("random_seed", seed)
+        s.set("smt.random_seed", seed)
+    for c in pc:
+        if not qf_only or not has_quant(c):
+            s.add(c)
+    s.add(z3.Not(goal))
+    return s.check(), s
+
+
 def prove(pc, goal, timeout_ms=None, want_model=True, external=True):
-    """Is pc -> goal valid?  Returns dict(verdict=unsat|sat|unknown, backend, ms, model)."""
+    """Is pc -> goal valid?  Returns dict(verdict=unsat|sat|unknown, backend, ms, model).
+    Staged: (A) full query, short budget; (B) quantifier-free subset of the assumptions (sound: fewer assumptions);
+    (C) pure E-matching; (D) full query, full budget; (E) re-seeded runs, cvc5, z3 4.8 on the SMT-LIB text."""
     timeout_ms = timeout_ms or QUICK_MS
     t0 = time.time()
-    # stage 1: quantifier-free assumptions only (a subset of the assumptions: unsat here is unsat overall)
-    if any(has_quant(c) for c in pc):
-        s1 = _mk_solver(min(2000, timeout_ms))
-        for c in pc:
-            if not has_quant(c):
-                s1.add(c)
-        s1.add(z3.Not(goal))
-        if s1.check() == z3.unsat:
-            return dict(verdict="unsat", backend="z3-5.1.0", model=None, ms=(time.time() - t0) * 1000.0)
-    s = _mk_solver(timeout_ms if STATE["skip_default_first"] is False else min(1500, timeout_ms))
-    for c in pc:
-        s.add(c)
-    s.add(z3.Not(goal))
-    r = s.check()
-    if r == z3.unknown and any(has_quant(c) for c in pc):
-        # pure E-matching (MBQI off): fast and stable for quantified invariants where the default strategy wanders; cannot answer sat
-        s2 = _mk_solver(timeout_ms)
-        s2.set("smt.mbqi", False)
-        for c in pc:
-            s2.add(c)
-        s2.add(z3.Not(goal))
-        if s2.check() == z3.unsat:
-            STATE["ematch_wins"] += 1
-            if STATE["ematch_wins"] >= 1:
-                STATE["skip_default_first"] = True   # in this function the default strategy gets a short budget from now on
-            return dict(verdict="unsat", backend="z3-5.1.0 (e-matching)", model=None, ms=(time.time() - t0) * 1000.0)
-        if STATE["skip_default_first"]:
-            # the short-budget default run may have been cut off: give it the full budget before concluding
-            s = _mk_solver(timeout_ms)
-            for c in pc:
-                s.add(c)
-            s.add(z3.Not(goal))
-            r = s.check()
+    quant = any(has_quant(c) for c in pc) or has_quant(goal)
     res = dict(backend="z3-5.1.0", model=None)
-    if r == z3.unsat:
-        res["verdict"] = "unsat"
-    elif r == z3.sat:
-        res["verdict"] = "sat"
-        if want_model:
-            res["model"] = s.model()
-    elif not external:
-        res["verdict"] = "unknown"
-        res["reason"] = s.reason_unknown()
-    elif _retry(pc, goal, timeout_ms):
-        res["verdict"] = "unsat"
-        res["backend"] = "z3-5.1.0 (reseeded)"
-    else:
-        v, backend = _external("(set-logic ALL)\n" + s.to_smt2(), max(5, timeout_ms // 1000))
-        res["verdict"] = v
-        if v != "unknown":
+
+    def done(verdict, backend=None, model=None):
+        res.update(verdict=verdict, ms=(time.time() - t0) * 1000.0)
+        if backend:
             res["backend"] = backend
-        else:
-            res["reason"] = s.reason_unknown()
+        if model is not None:
+            res["model"] = model
+        return res
+    r, s = _check(pc, goal, min(1500, timeout_ms) if quant else timeout_ms)
+    if r == z3.unsat:
+        return done("unsat")
+    if r == z3.sat:
+        return done("sat", model=s.model() if want_model else None)
+    if quant:
+        r, _ = _check(pc, goal, 500, qf_only=True)
+        if r == z3.unsat:
+            return done("unsat", "z3-5.1.0 (quantifier-free subset)")
+        r, _ = _check(pc, goal, max(1000, timeout_ms // 2), ematch=True)
+        if r == z3.unsat:
+            return done("unsat", "z3-5.1.0 (e-matching)")
+        r, s = _check(pc, goal, timeout_ms)
+        if r == z3.unsat:
+            return done("unsat")
+        if r == z3.sat:
+            return done("sat", model=s.model() if want_model else None)
+    if not external:
+        res["reason"] = s.reason_unknown()
+        return done("unknown")
+    for seed in (1, 7):
+        r, _ = _check(pc, goal, timeout_ms, seed=seed, ematch=(seed == 1))
+        if r == z3.unsat:
+            return done("unsat", "z3-5.1.0 (reseeded)")
+    v, backend = _external("(set-logic ALL)\n" + s.to_smt2(), max(5, timeout_ms // 1000))
+    if v != "unknown":
+        return done(v, backend)
+    res["reason"] = s.reason_unknown()
+    return done("unknown")
+
+
+def _unused():
+    res = {}
     res["ms"] = (time.time() - t0) * 1000.0
     return res
